@@ -1,15 +1,16 @@
 (* Props/C19.v — property C19 (every linter honours its documented examples wherever they are embedded).
    PARTIAL: what is proved here is (1) the algebra of embeddings and the locality theory of walker-shaped
-   detectors, for ANY such detector; (2) its instances for the models of two real detectors, the
-   print-statement detector (local as it stands) and the string-concat-in-loop detector (local for every quirk
-   vector whose file-global flags are off; refuted for the current tree in Props/C19Known.v).
+   detectors, for ANY such detector; (2) its instances for the models of five real detectors: print-statement (local as
+   it stands), string-concat-in-loop, stateless-class, method-property, conditional-verbose (each local / once per
+   occurrence / renaming-invariant for the quirk vectors and contexts stated below; refuted for the current tree where a
+   flag is on, in Props/C19Known.v).
    Nothing is proved here about the other pattern linters: for them the law below is tested on the implementation
    (harness/props/c19.py).  Only statements closed by `exact <lemma>` and their Print Assumptions. *)
 From Coq Require Import Permutation.
-From TL Require Import Lib.Base Lib.GenTypes Gen.EmbedGen Model.Embed Model.PrintStmt Model.PerfConcat Model.StatelessCls
-     Model.MethodProp Model.EmbedRun
+From TL Require Import Lib.Base Lib.GenTypes Gen.EmbedGen Gen.Embed2Gen Model.Embed Model.PrintStmt Model.PerfConcat Model.StatelessCls
+     Model.MethodProp Model.CondVerbose Model.EmbedRun
      Proofs.EmbedLocality Proofs.PrintStmtLocal Proofs.PerfConcatLocal Proofs.PerfConcatRename Proofs.StatelessClsLocal
-     Proofs.MethodPropLocal.
+     Proofs.MethodPropLocal Proofs.MethodPropRename Proofs.CondVerboseLocal.
 
 (* ---------------------------------------------------------------- 1. any walker-shaped detector *)
 (* step pushes a summary of the ancestors down, emit reports at a node from the summary and the node's subtree.
@@ -231,11 +232,75 @@ Theorem C19_method_local : forall q, q_mp_class_body_only q = false -> forall c 
 Proof. exact method_embedding_local. Qed.
 Print Assumptions C19_method_local.
 
+(* renaming, every quirk vector: a renaming that keeps `self` apart and keeps the dunder / action-verb status of every name
+   (the documented exclusions) commutes with detection; class and method name of a report are renamed *)
+Theorem C19_method_rename : forall sg, mp_sigma_ok sg -> forall q file,
+  method_reports q (renameF sg file) = map (renameRR sg) (method_reports q file).
+Proof. exact method_rename. Qed.
+Print Assumptions C19_method_rename.
+
+Theorem C19_method_rename_finite : forall q sg file,
+  avoids [mp_self_name] sg = true -> Model.EmbedRun2.mp_names_kept sg = true ->
+  method_reports q (renameF (sigma_of sg) file) = map (renameRR (sigma_of sg)) (method_reports q file).
+Proof. exact method_rename_finite. Qed.
+Print Assumptions C19_method_rename_finite.
+
 (* the code's exclusion tables are the documented ones *)
 Theorem C19_method_tables_as_documented :
   mp_exclude_prefixes = mp_doc_exclude_prefixes /\ mp_exclude_names = mp_doc_exclude_names.
 Proof. exact mp_tables_as_documented. Qed.
 Print Assumptions C19_method_tables_as_documented.
+
+(* ---------------------------------------------------------------- 6. conditional verbose logging (src/linters/print_statements) *)
+(* every quirk vector; every context none of whose wrappers is an `if` with a verbose-like test (such a wrapper makes
+   every logger call of the fragment an occurrence of the pattern) *)
+Theorem C19_condverbose_local : forall q c frag,
+  cv_ctx_ok c = true ->
+  Permutation (cv_reports q (plug c frag))
+              (shiftRs (off_l c) (off_c c) (cv_reports q frag) ++ cv_reports q (fillers c)).
+Proof. exact cv_embedding_fillers. Qed.
+Print Assumptions C19_condverbose_local.
+
+Theorem C19_condverbose_local_ordered : forall q c frag,
+  cv_ctx_ok c = true ->
+  cv_reports q (plug c frag) =
+  ctx_pre cv_step (cv_emit q) c (false, false) ++ shiftRs (off_l c) (off_c c) (cv_reports q frag)
+  ++ ctx_post cv_step (cv_emit q) c (false, false).
+Proof. exact cv_embedding_local. Qed.
+Print Assumptions C19_condverbose_local_ordered.
+
+Theorem C19_condverbose_copies : forall q n h frag,
+  cv_reports q (copies n h frag) = flat_map (fun k => shiftRs (k * h) 0 (cv_reports q frag)) (seq 0 n).
+Proof. exact cv_copies. Qed.
+Print Assumptions C19_condverbose_copies.
+
+(* renaming: every renaming that keeps verbose-likeness and logger-method-ness of every name and keeps `get` apart *)
+Theorem C19_condverbose_rename : forall q sg file,
+  cv_sigma_ok sg -> cv_reports q (renameF sg file) = map (renameR sg) (cv_reports q file).
+Proof. exact cv_rename. Qed.
+Print Assumptions C19_condverbose_rename.
+
+Theorem C19_condverbose_rename_finite : forall q sg file,
+  cv_names_kept sg = true -> avoids [cv_get_name] sg = true ->
+  cv_reports q (renameF (sigma_of sg) file) = map (renameR (sigma_of sg)) (cv_reports q file).
+Proof. exact cv_rename_finite. Qed.
+Print Assumptions C19_condverbose_rename_finite.
+
+(* once per occurrence, also below a verbose wrapper (flag off): an uncovered verbose `if` reports every logger call below
+   its body exactly once - nested verbose tests add nothing; its test and else branch are analysed on their own *)
+Theorem C19_condverbose_once : forall q, q_cv_per_enclosing_if q = false -> forall s t,
+  is_verbose_if (erase t) = true -> covered s t = false ->
+  detect cv_step (cv_emit q) s t =
+  body_calls t ++ flat_map (detect cv_step (cv_emit q) (false, true))
+                           (filter (fun k => negb (String.eqb (nrole k) cv_body_field)) (nkids t)).
+Proof. exact cv_once_per_call. Qed.
+Print Assumptions C19_condverbose_once.
+
+(* confinement of q_cv_per_enclosing_if: it shows only on files where a verbose `if` lies in the body of another one *)
+Theorem C19_condverbose_quirk_partial : forall q file,
+  forallb (no_nested_verbose (false, false)) file = true -> cv_reports q file = cv_reports v_ideal file.
+Proof. exact cv_quirk_partial. Qed.
+Print Assumptions C19_condverbose_quirk_partial.
 
 (* ---------------------------------------------------------------- non-vacuity *)
 (* the documented violating example of docs/performance-linter.md, inside a method of a class, after a closed
